@@ -39,6 +39,52 @@ def fix_list() -> str:
     return f"{len(fixes)} commits:\n\n" + "\n".join("* `%s` %s" % (l.split()[0], " ".join(l.split()[1:])) for l in fixes) + "\n"
 
 
+STATIC = {
+    "C01": ("engine, 4 modes", "interpreter == generated (+ compiles, byte-identical)", "exploration"),
+    "C02": ("engine, 278 optimizer configurations, child per configuration", "== optimizer=None (interpreted and generated)", "exploration"),
+    "C03": ("engine, IU", "refpeg", "model_checking"),
+    "C04": ("engine, 4 modes", "refpeg", "model_checking"),
+    "C05": ("engine 4 modes + bfs (Stack, ParserState)", "refpeg, no exception; full-copy model", "model_checking"),
+    "C06": ("engine 4 modes, every start position, + bundled grammars", "tree / API invariants incl. compact dumps (content)", "exploration"),
+    "C07": ("engine 4 modes, each call twice on the same text object", "Pairs or PestParsingError, repeatable, watchdog", "exploration"),
+    "C08": ("rewrite sites x kinds (+ combinations) x corpus, bundled + 2 synthetic grammars", "== unrewritten grammar", "exploration"),
+    "C09": ("bfs (Stack, SnapshottingInt, ParserState with atomic blocks)", "full-copy model", "model_checking"),
+    "C10": ("text enumeration (+ reload history)", "meta.pest under refpeg (+ structure)", "model_checking"),
+    "C11": ("text fault enumeration (forked children for pumped / huge texts)", "Parser or renderable PestGrammarError", "fault_enumeration"),
+    "C12": ("full code space x expressions x 4 modes; windows for adjacency / case-folding history; escapes", "integer comparisons; cross-mode for Unicode rules", "exploration"),
+    "C13": ("engine 4 modes, rejected cases, every start position", "position / labels / rendering invariants (either line convention)", "exploration"),
+    "C14": ("text x offset x span; query orders; two-text histories", "newline arithmetic", "exploration"),
+    "C15": ("forked histories (3 pools) + sched + two-state bfs + free-running", "isolated / sequential / full-copy reference", "model_checking"),
+    "C16": ("engine 4 modes x every k", "suffix parse shifted", "exploration"),
+    "C17": ("document / expression enumeration, second parse of the same text", "json.loads; reference evaluator", "exploration"),
+    "C18": ("table x stream enumeration, one parser instance per table", "binding-power transcription + brute force", "model_checking"),
+}
+THOROUGH_MEASURED = {
+    # last measured runs of the thorough tier (commit, what, wall); sizes have grown since for most (see text)
+    "C01": "427M evaluations / 28 min (b506832, before later families)", "C02": "135M / 7 min (b506832)", "C03": "196M / 26 min on 10 cores (e86f708)", "C04": "142M / 8 min (b506832)",
+    "C05": "52M / 4.4 min on 10 cores (e86f708)", "C06": "not re-measured (about 20-40 min)", "C07": "not re-measured (about 20-40 min)", "C08": "all inputs, 4 modes everywhere / 14 min (b506832, before combinations)",
+    "C09": "depth 14/14/11 / 12 min (b506832, before atomic blocks)", "C10": "1.95M texts / 69 s (e86f708)", "C11": "N=4, K=4, replacements+insertions / 16 min (b506832)", "C12": "~160 expressions + all property rules / 20 min (b506832)",
+    "C13": "not re-measured (about 20-40 min)", "C14": "5.3M / 10 s (e86f708)", "C15": "history depth 4, 2 preemptions on the tiny harness / 8 min (b506832, one pool)", "C16": "not re-measured (about 20-40 min)",
+    "C17": "larger subsets, 7 tokens / 7.8 min on 10 cores (e86f708)", "C18": "37.6M streams, 8 tokens / 26 min on 10 cores (e86f708)",
+}
+
+
+def bounds_table() -> str:
+    out = ["| id | explorer | oracle | quick tier: executions judged, wall on 16 cores (committed evidence) | thorough tier (last measured) | level |", "|---|---|---|---|---|---|"]
+    total = 0.0
+    for pid in sorted(STATIC):
+        f = os.path.join(common.VERIF, "evidence", f"{pid}.json")
+        ev = json.load(open(f)) if os.path.exists(f) else {}
+        cov = ev.get("coverage", {})
+        n = cov.get("evaluations") or cov.get("states") or 0
+        wall = ev.get("wall_s", 0)
+        total += wall
+        ex, orc, lvl = STATIC[pid]
+        out.append(f"| {pid} | {ex} | {orc} | {n:,} in {wall:.0f} s | {THOROUGH_MEASURED[pid]} | {lvl} |")
+    out.append(f"\nAll 18 quick tiers together: {total / 60:.0f} minutes (measured one after the other on an otherwise idle 16-core sandbox).")
+    return "\n".join(out) + "\n"
+
+
 def main() -> int:
     p = os.path.join(common.VERIF, "DESIGN.md")
     s = open(p).read()
@@ -47,6 +93,11 @@ def main() -> int:
         a = s.index(fb) + len(fb)
         b = s.index(fe)
         s = s[:a] + "\n" + fix_list() + s[b:]
+    bb, be = "<!-- BEGIN BOUNDS TABLE -->", "<!-- END BOUNDS TABLE -->"
+    if bb in s:
+        a = s.index(bb) + len(bb)
+        b = s.index(be)
+        s = s[:a] + "\n" + bounds_table() + s[b:]
     if BEGIN not in s:
         raise SystemExit("markers not found in DESIGN.md")
     a = s.index(BEGIN) + len(BEGIN)
